@@ -299,12 +299,14 @@ MUST_FIRE += [
     ("m127", ["C10"], ["S3"], rep1(S + "tomography.py", "    density_matrix = np.zeros(shape=[2**num_qubits, 2**num_qubits], dtype=np.complex128)", "    density_matrix = np.ones(shape=[2**num_qubits, 2**num_qubits], dtype=np.complex128)"), "density matrix accumulated on top of an all-ones array"),
     ("m128", ["C10"], ["U1"], rep1(S + "tomography.py", "        for index, circuit in enumerate(self.circuits):", "        for index, circuit in enumerate(self.mubs):"), "fitter reads an attribute nobody defines"),
     ("m129", ["C18"], ["K18"], rep1(S + "f2_algebra.py", "    for i in range(cols):\n        if i not in pivot_cols:", "    for i in range(1, cols):\n        if i not in pivot_cols:"), "column 0 never considered as a free column"),
+    ("m130", ["C12"], ["B1"], rep1(S + "tomography.py", "    return Pauli((np.array([bool(int(x)) for x in l]), np.zeros(num_qubits, dtype=bool)))", "    return Pauli((np.array([bool((bitstring >> (num_qubits - 1 - j)) & 1) for j in range(num_qubits)]), np.zeros(num_qubits, dtype=bool)))"), "mask bits taken from the other end (shift form)"),
     ("m95", ["C19"], ["K12"], rep1(S + "graph.py", "    def compress(self) -> int:", "    def compress(self) -> int:\n        if getattr(self, \"_id\", None) is not None:\n            return self._id\n        self._id = self._compress()\n        return self._id\n\n    def _compress(self) -> int:"), "graph id remembered by the object and never invalidated"),
     ("m72", ["C13"], ["A3"], rep1(S + "circuit_lookup.py", "result.circuits = [circuit.copy() for circuit in self.circuits]", "result.circuits = list(self.circuits)"), "fresh list of the cached circuits"),
 ]
 
 MUST_STAY_SILENT = [
     # id, properties to run, edit, exit 2 tolerated?, note
+    ("s36", ["C10", "C12"], rep1(S + "tomography.py", "    return Pauli((np.array([bool(int(x)) for x in l]), np.zeros(num_qubits, dtype=bool)))", "    return Pauli((np.array([bool((bitstring >> j) & 1) for j in range(num_qubits)]), np.zeros(num_qubits, dtype=bool)))"), False, "mask bits by shifting: position j = bit j"),
     ("s35", ["C18"], rep1(S + "f2_algebra.py", "    cols = A.shape[1]\n\n    out = []", "    cols = A.shape[1]\n    if not pivot_cols:\n        return np.identity(cols, dtype=np.int8)\n    out = []"), False, "zero matrix: the whole space, handed out early"),
     ("s34", ["C18"], rep1(S + "f2_algebra.py", "    return len(rref(A)[1])", "    return int(np.count_nonzero(rref(A)[0].any(axis=1)))"), False, "rank as the number of non-zero rows of the reduced matrix"),
     ("s33", ["C18"], rep1(S + "f2_algebra.py", "    cols = A.shape[1]\n\n    out = []", "    cols = A.shape[1]\n    if len(pivot_cols) == cols:\n        return np.zeros((0, cols), dtype=np.int8)\n    out = []"), False, "early empty basis exactly when every column is a pivot column"),
